@@ -14,7 +14,7 @@ from .gen_syntax import XmlError
 from .c16 import norm, classify
 
 PROP = "C17"
-KINDS = ["const", "fn", "fn_head", "struct", "word"]
+KINDS = ["const", "fn", "fn_head", "struct", "word", "import"]
 
 
 def delta(src):
@@ -40,7 +40,7 @@ def check_module(decls, rng, wild=True):
     if diff:
         return "header differs from the public interface: " + classify(diff), diff, replay
     # restricted module: public declarations only, without `pub`, bodies replaced by `;`
-    pubs = [d for d in decls if d[0] != "import" and "Public" in d[2]]
+    pubs = [d for d in decls if "Public" in d[2]]
     printer = gen_syntax.Src(rng, wild=wild)
     restricted = "\n".join(printer.decl(d, force_private=True, strip_body=True) for d in pubs)
     if pubs:
@@ -83,8 +83,8 @@ def run_case(case):
         pat = "".join("P" if m else "-" for m in mask)
     else:
         n = rng.randrange(1, 9)
-        decls = [g.declaration(kind=rng.choice(KINDS + ["import"]), public=(rng.random() < 0.5)) for _ in range(n)]
-        pat = "".join("P" if (d[0] != "import" and "Public" in d[2]) else "-" for d in decls)
+        decls = [g.declaration(kind=rng.choice(KINDS), public=(rng.random() < 0.5)) for _ in range(n)]
+        pat = "".join("P" if "Public" in d[2] else "-" for d in decls)
     sig, detail, replay = check_module(decls, rng, wild=(case[2] % 2 == 0))
     cov = {"modules": 1, "declarations": len(decls), "pattern_len_%d" % len(decls): 1}
     if sig:
